@@ -79,7 +79,10 @@ def csv_case(draw, tier):
     quoting = draw(st.sampled_from(["minimal", "all", "nonnumeric"]))
     text = st.text(alpha, max_size=4)
     cell = text if quoting == "nonnumeric" else st.one_of(text, text, st.none(), st.integers(-5, 5), st.floats(allow_nan=False, allow_infinity=False, width=16), st.booleans())
-    hdrs = st.lists(st.text(alpha, max_size=3), min_size=1, max_size=3)
+    # field names are usually text, sometimes None (an unnamed column) or an int: rendered like any other cell
+    hname = st.text(alpha, max_size=3) if quoting == "nonnumeric" else st.one_of(st.text(alpha, max_size=3), st.text(alpha, max_size=3),
+                                                                                 st.text(alpha, max_size=3), st.none(), st.integers(0, 3))
+    hdrs = st.lists(hname, min_size=1, max_size=3)
     rows = st.lists(st.lists(cell, max_size=4), max_size=4)
     t1 = [draw(hdrs)] + draw(rows)
     nappend = draw(st.sampled_from([0, 0, 1, 2]))
